@@ -186,6 +186,14 @@ func pathExec(c *Ctx, op string) string {
 		func() {
 			defer func() { recover() }()
 			rel = showRel(p.CoerceRelative())
+			// one cleaned path, one value: the coerced path is the parsed one (`==`, as map keys and the walk-to-root loops
+			// compare them), and taking the parent commutes with coercing
+			if r := p.CoerceRelative(); r != fs.MustRelPath("."+p.String()) {
+				c.PropFail("canonical", fmt.Sprintf("CoerceRelative() of %q prints %q but is not the value MustRelPath gives for that string", p.String(), r.String()), op)
+			}
+			if p.Dir().CoerceRelative() != p.CoerceRelative().Dir() {
+				c.PropFail("canonical", fmt.Sprintf("Dir().CoerceRelative() and CoerceRelative().Dir() of %q are different values", p.String()), op)
+			}
 		}()
 		c.H("abs:ok")
 		c.Distinct("abs:" + cl)
